@@ -21,9 +21,10 @@ if os.path.exists(mf):
     for i, l in enumerate(open(mf)):
         if l.startswith('#') or not l.strip():
             continue
-        p, f, e = l.rstrip('\n').split('\t')[:3]
+        cols = l.rstrip('\n').split('\t')
+        p, f, e = cols[:3]
         if p == prop:
-            items.append((f'mutant:{f}:{e[:40]}', 'sed', (f, e)))
+            items.append((f'mutant:{f}:{e[:40]}', 'sed', (f, e, cols[3:])))  # further columns: more file / expression pairs
 res = []
 for name, kind, arg in items:
     d = tempfile.mkdtemp(prefix='verif-selftest-')
@@ -33,10 +34,12 @@ for name, kind, arg in items:
             r = subprocess.run(['patch', '-p1', '--no-backup-if-mismatch', '-i', arg], cwd=d, capture_output=True, text=True)
             applied = r.returncode == 0
         else:
-            f, e = arg
+            f, e, more = arg
             before = open(os.path.join(d, f)).read()
             subprocess.run(['sed', '-i', e, os.path.join(d, f)])
             applied = open(os.path.join(d, f)).read() != before
+            for k in range(0, len(more) - 1, 2):
+                subprocess.run(['sed', '-i', more[k + 1], os.path.join(d, more[k])])
         if not applied:
             res.append({'item': name, 'outcome': 'does-not-apply'})
             print(f'SELFTEST {prop} {name}: does not apply to the current tree (skipped)')
